@@ -68,17 +68,37 @@ Sites == <<
   ExS("max_fragment_length", 1, <<>>, 1, <<>>, "v"),
   ExS("heartbeat_mode", 15, <<>>, 1, <<>>, "v"),
   S("dtls_fragment_type", "parse_dtls_message_handshake", NoArgs, <<>>, 1, <<0, 0, 9, 0, 1, 0, 0, 3, 0, 0, 2, 7, 7>>, "mt"),
-  S("dtls_hello_verify_version", "parse_dtls_message_handshake", NoArgs, <<3, 0, 0, 3, 0, 0, 0, 0, 0, 0, 0, 3>>, 2, <<0>>, "body.ver")
+  S("dtls_hello_verify_version", "parse_dtls_message_handshake", NoArgs, <<3, 0, 0, 3, 0, 0, 0, 0, 0, 0, 0, 3>>, 2, <<0>>, "body.ver"),
+  (* ServerHello.version is not a site: it selects the structure (SSLv3 without extensions, draft-18 layout) *)
+  HsS("client_hello_version_with_extensions", 1, <<>>, 2, R32 \o <<0, 0, 2, 19, 1, 1, 0, 0, 4, 0, 23, 0, 0>>, "m.ver"),
+  (* a record whose bytes 2..4 look like an SSLv2 hello (message type 1, version 3.x): still a record of the given type *)
+  S("record_type_raw_sslv2_lookalike", "parse_tls_raw_record", NoArgs, <<>>, 1, <<3, 1, 3, 3>> \o Fill(5, 771), "hdr.ct"),
+  S("record_type_encrypted_sslv2_lookalike", "parse_tls_encrypted", NoArgs, <<>>, 1, <<2, 1, 3, 0>> \o Fill(6, 768) \o <<1>>, "hdr.ct"),
+  S("record_version_handshake", "parse_tls_plaintext", NoArgs, <<22>>, 2, <<0, 4, 14, 0, 0, 0>>, "hdr.ver"),
+  S("record_version_ccs", "tls_parser", NoArgs, <<20>>, 2, <<0, 1, 1>>, "hdr.ver"),
+  S("dtls_server_hello_version", "parse_dtls_message_handshake", NoArgs, <<2, 0, 0, 44, 0, 1, 0, 0, 0, 0, 0, 44>>, 2,
+    R32 \o <<0, 0, 47, 0, 0, 4, 0, 23, 0, 0>>, "body.ver"),
+  S("dtls_server_hello_cipher", "parse_dtls_message_handshake", NoArgs, <<2, 0, 0, 38, 0, 1, 0, 0, 0, 0, 0, 38, 254, 253>> \o R32 \o <<0>>, 2,
+    <<0>>, "body.cipher"),
+  S("dtls_client_hello_version", "parse_dtls_message_handshake", NoArgs, <<1, 0, 0, 42, 0, 0, 0, 0, 0, 0, 0, 42>>, 2,
+    R32 \o <<0, 0, 0, 2, 0, 47, 1, 0>>, "body.ver"),
+  S("dtls_client_hello_cipher", "parse_dtls_message_handshake", NoArgs, <<1, 0, 0, 44, 0, 0, 0, 0, 0, 0, 0, 44, 254, 253>> \o R32 \o <<0, 0, 0, 4, 0, 47>>, 2,
+    <<1, 0>>, "body.ciphers.1"),
+  S("dtls_record_version_in_record", "parse_dtls_plaintext_record", NoArgs, <<21>>, 2, <<0, 0, 0, 0, 0, 0, 0, 0, 0, 2, 1, 0>>, "hdr.ver")
   >>
 NSites == Len(Sites)
 
 (* the accessor of each site on the specification's (content-mode) value *)
 Acc(site, v) ==
   CASE site \in {"record_version_raw", "record_version_plaintext", "record_version_encrypted"} -> v.hdr.ver
-    [] site \in {"record_type_raw", "record_type_encrypted"} -> v.hdr.ct
+    [] site \in {"record_type_raw", "record_type_encrypted", "record_type_raw_sslv2_lookalike", "record_type_encrypted_sslv2_lookalike"} -> v.hdr.ct
     [] site \in {"record_type_header", "dtls_record_type"} -> v.ct
     [] site = "dtls_record_version" -> v.ver
-    [] site \in {"client_hello_version", "hello_retry_version"} -> v.m.ver
+    [] site \in {"client_hello_version", "hello_retry_version", "client_hello_version_with_extensions"} -> v.m.ver
+    [] site \in {"record_version_handshake", "record_version_ccs", "dtls_record_version_in_record"} -> v.hdr.ver
+    [] site \in {"dtls_server_hello_version", "dtls_client_hello_version"} -> v.body.ver
+    [] site = "dtls_server_hello_cipher" -> v.body.cipher
+    [] site = "dtls_client_hello_cipher" -> v.body.ciphers[2]
     [] site \in {"draft18_cipher", "server_hello_cipher"} -> v.m.cipher
     [] site = "client_hello_cipher" -> v.m.ciphers[2]
     [] site = "client_hello_compression" -> v.m.comp[2]
